@@ -107,7 +107,7 @@ mutual
     | .decl t e, env => by
       unfold domS checkS
       exact bind_inv _ _ _ _ _ _ (domE_inv T e env _) (fun x =>
-        bind_inv _ _ _ _ _ _ (site_inv _ _ _) (fun _ => ok_inv _))
+        bind_inv _ _ _ _ _ _ (site_inv _ _ _) (fun t' => ok_inv _))
     | .declz t, env => by unfold domS checkS; exact ok_inv _
     | .define e, env => by
       unfold domS checkS
